@@ -32,6 +32,7 @@ from liquid2 import is_path_token
 from liquid2 import is_range_token
 from liquid2 import is_template_string_token
 from liquid2 import is_token_type
+from liquid2.exceptions import LiquidError
 from liquid2.exceptions import LiquidSyntaxError
 from liquid2.exceptions import LiquidTypeError
 from liquid2.exceptions import UnknownFilterError
@@ -845,11 +846,13 @@ class Filter:
         positional_args, keyword_args = self.evaluate_args(context)
         try:
             return func(left, *positional_args, **keyword_args)
-        except TypeError as err:
-            raise LiquidTypeError(str(err), token=self.token) from err
         except LiquidTypeError as err:
             err.token = self.token
             raise err
+        except LiquidError:
+            raise
+        except (TypeError, ValueError, ArithmeticError, LookupError) as err:
+            raise LiquidTypeError(f"{self.name}: {err}", token=self.token) from err
 
     async def evaluate_async(self, left: object, context: RenderContext) -> object:
         func = context.filter(self.name, token=self.token)
@@ -857,11 +860,13 @@ class Filter:
 
         try:
             return func(left, *positional_args, **keyword_args)
-        except TypeError as err:
-            raise LiquidTypeError(f"{self.name}: {err}", token=self.token) from err
         except LiquidTypeError as err:
             err.token = self.token
             raise err
+        except LiquidError:
+            raise
+        except (TypeError, ValueError, ArithmeticError, LookupError) as err:
+            raise LiquidTypeError(f"{self.name}: {err}", token=self.token) from err
 
     def evaluate_args(
         self, context: RenderContext
